@@ -17,6 +17,7 @@ import (
 const modPath = "github.com/ajitpratap0/GoSQLX"
 
 type Engine struct {
+	Cursors map[int]string // typeID -> leaf path of the cursor field (contract directive `cursor`)
 	RepoDir string
 	Prog    *ssa.Program
 	Pkgs    []*packages.Package
@@ -298,6 +299,11 @@ func (e *Engine) computeModSets() {
 			for _, ins := range b.Instrs {
 				switch x := ins.(type) {
 				case *ssa.Store:
+					if freshRoot(x.Addr, map[ssa.Value]bool{}) {
+						// the cell of a local of this very call (e.g. a variable captured by a closure): it did not
+						// exist before the call, so no cell the caller knows anything about is written
+						continue
+					}
 					pt, ok := underlying(x.Addr.Type()).(*types.Pointer)
 					if ok {
 						for _, a := range e.placeArrays(x.Addr, pt.Elem()) {
@@ -482,4 +488,108 @@ func (e *Engine) placeArrays(addr ssa.Value, t types.Type) []string {
 		return out
 	}
 	return storeArrays(t)
+}
+
+
+// freshRoot: the address lies inside an object this very call allocated (a local cell, or a slice it made and
+// indexes directly), possibly through phis over such objects, or inside a slice read back from such an object into
+// which only freshly made slices are ever stored (rows of a matrix built by the call).
+func freshRoot(v ssa.Value, seen map[ssa.Value]bool) bool {
+	if seen[v] {
+		return true
+	}
+	seen[v] = true
+	switch x := v.(type) {
+	case *ssa.Alloc, *ssa.MakeSlice:
+		return true
+	case *ssa.IndexAddr:
+		return freshRoot(x.X, seen)
+	case *ssa.FieldAddr:
+		return freshRoot(x.X, seen)
+	case *ssa.Slice:
+		return freshRoot(x.X, seen)
+	case *ssa.Phi:
+		for _, e := range x.Edges {
+			if !freshRoot(e, seen) {
+				return false
+			}
+		}
+		return true
+	case *ssa.UnOp:
+		if x.Op != token.MUL {
+			return false
+		}
+		root := containerRoot(x.X)
+		if root == nil || x.Parent() == nil || !onlyIndexed(root, 0) {
+			return false
+		}
+		// every store into that container puts a fresh object there
+		n := 0
+		for _, b := range x.Parent().Blocks {
+			for _, ins := range b.Instrs {
+				if st, ok := ins.(*ssa.Store); ok && containerRoot(st.Addr) == root && st.Addr != root {
+					if _, isPtrLike := underlying(st.Val.Type()).(*types.Slice); !isPtrLike {
+						continue
+					}
+					n++
+					if !freshRoot(st.Val, seen) {
+						return false
+					}
+				}
+			}
+		}
+		return n > 0
+	}
+	return false
+}
+
+// containerRoot: the Alloc / MakeSlice an element or field address points into (nil if it is not one of this call's)
+func containerRoot(a ssa.Value) ssa.Value {
+	for i := 0; i < 8; i++ {
+		switch x := a.(type) {
+		case *ssa.Alloc, *ssa.MakeSlice:
+			return a
+		case *ssa.IndexAddr:
+			a = x.X
+		case *ssa.FieldAddr:
+			a = x.X
+		case *ssa.Slice:
+			a = x.X
+		default:
+			return nil
+		}
+	}
+	return nil
+}
+
+
+// onlyIndexed: the container is used by this call for element access and len/cap only (it is not handed to anyone
+// who could store something else into it)
+func onlyIndexed(v ssa.Value, d int) bool {
+	refs := v.Referrers()
+	if refs == nil || d > 4 {
+		return false
+	}
+	for _, r := range *refs {
+		switch x := r.(type) {
+		case *ssa.IndexAddr:
+			if x.X != v {
+				return false
+			}
+		case *ssa.Slice:
+			if !onlyIndexed(x, d+1) {
+				return false
+			}
+		case *ssa.Call:
+			if b, ok := x.Call.Value.(*ssa.Builtin); !ok || (b.Name() != "len" && b.Name() != "cap") {
+				return false
+			}
+		case *ssa.DebugRef:
+		case *ssa.Phi:
+			return false
+		default:
+			return false
+		}
+	}
+	return true
 }
